@@ -311,4 +311,15 @@ def wPtrEmbedSetter : Input :=
 theorem C15_F_ptrEmbedSetter_witness :
     region15 wPtrEmbedSetter = "F_ptrEmbedSetter" ∧ obs15 wPtrEmbedSetter ≠ spec15 wPtrEmbedSetter := by decide
 
+/-- FromX builds the shoot-new source with `NewOrder(d_.Zone)`: `Zone` is promoted through the embedded pointer `*Base` of the
+    destination, the argument is evaluated without the `if d_.Base != nil` guard a statement gets — nil `Base` panics -/
+def wCtorArgNil : Input :=
+  { src := .field { name := "zone", ty := .basic "int" } .nil,
+    dest := .embed "Base" true (.field { name := "Zone", ty := .basic "int" } .nil) .nil,
+    srcNew := true, way := .fromOnly }
+theorem C15_F_ctorArgNil_witness :
+    region15 wCtorArgNil = "F_ctorArgNil" ∧
+    obsPart wCtorArgNil [] ["Base"] [] ["1"] = [("fromN:1", "panic")] ∧
+    specPart wCtorArgNil [] ["Base"] [] ["1"] = [("fromN:1", "zone=zero")] := by decide
+
 end ShootVerif.Mapper
